@@ -185,6 +185,43 @@ T = {
  "C19-s6": ("C19", ["C19"], "internal/keymap PrintBinds caches command -> sequences per keymap, dropped only by ReloadConfig", "dump-functions, binds changed through the API, dump-functions again"),
  "C20-s5": ("C20", ["C20"], "internal/display WatchResize only recomputes the completion grid when compRows > 0 (which is rows-1)", "a one-row completion list displayed, then a resize to a narrower terminal"),
  "C20-s6": ("C20", ["C20"], "internal/core/keys.go extractCursorPos: one-pass version whose report is a sub-slice of the input, overwritten by the keys that follow it in the same read", "a resize / Printf at an input wait with the next keys typed behind the answer"),
+
+ # third round, second half (the twelve other properties)
+ "C02-s5": ("C02", ["C02"], "internal/core/line.go Line.Set copies into the line's own array; the display's suggestion line aliases that array and writes the highlighted text over the input line", "an application SyntaxHighlighter that changes the text it is given, history-autosuggest with no matching entry"),
+ "C02-s6": ("C02", ["C02"], "internal/keymap/dispatch.go: multi-byte characters for which unicode.IsPrint is false are dropped by the dispatcher", "typed text with U+3000, U+00A0, U+200D, typographic spaces, private-use or format characters"),
+ "C05-s5": ("C05", ["C05"], "internal/core/keys.go convertInput: the scan for a cut multi-byte character only looks at the last read", "a 3- or 4-byte character delivered in three or more reads"),
+ "C05-s6": ("C05", ["C05"], "readline.go: the post-run hint / argument housekeeping moved to the top of the loop; an iteration that only matched a prefix resets the pending numeric argument", "a numeric argument followed by a command bound to a multi-byte sequence, with a read boundary inside that sequence"),
+ "C07-s5": ("C07", ["C07"], "internal/history/undo.go Save: a byte-length vs rune-length pre-check in front of the same-text test; two adjacent undo items with the same text on non-ASCII lines", "a line with a multi-byte character, two consecutive saving commands, then 2+ undos and as many redos"),
+ "C07-s6": ("C07", ["C07"], "internal/history/sources.go Init: the undo history of the typed line is kept when the previous call was accepted from a history line", "call N: text typed, a history line accepted; call N+1: undo"),
+ "C09-s5": ("C09", ["C09"], "internal/history/sources.go Walk: an emptied line being typed is not saved when leaving it for the history", "type text, undo back to the empty line (or kill it with a command that skips its save), go up, come back down"),
+ "C09-s6": ("C09", ["C09"], "internal/completion/isearch.go: incremental search does not give the typed text back when the search text is deleted down to nothing", "C-r on a non-empty in-progress line that is a prefix of an entry, a search text that matches, deleted again entirely, then Enter / Escape"),
+ "C11-s5": ("C11", ["C11"], "internal/term/raw_unix.go Restore puts back only the settings raw mode changes and forgets VMIN / VTIME", "a terminal whose VMIN/VTIME are not 1/0 before the call"),
+ "C11-s6": ("C11", ["C11"], "readline.go: a deferred SetMain(vi-insert) registered before the deferred cursor-style reset prints the insert-mode cursor style after it", "Vi editing mode, any way out of the call"),
+ "C13-s5": ("C13", ["C13"], "inputrc/parse.go $include handled by a copy of the including parser that shares the condition stack", "$include inside an $if block, the included file with its own $if of another truth value, directives after the $include"),
+ "C13-s6": ("C13", ["C13"], "internal/keymap/config.go ReloadConfig: library defaults appended after the application's options override WithMode / WithTerm", "NewShell with WithMode / WithTerm other than emacs / $TERM and a file with $if mode= / term= blocks"),
+ "C14-s5": ("C14", ["C14"], "internal/completion/insert.go: the virtual completed line shares its array with the real input line", "cycling through candidates with text after the cursor"),
+ "C14-s6": ("C14", ["C14"], "readline.go: UpdateInserted only runs when a candidate is inserted; a list displayed without a selection keeps the menu keymap and the old prefix", "possible-completions (or a first Tab with menu-complete-display-prefix), then typed keys, then Tab"),
+ "C15-s5": ("C15", ["C15"], "internal/completion/engine.go: with autocomplete on, Select no longer enters the menu keymap; menu-complete stays on the first candidate", "set autocomplete on and a non-empty line"),
+ "C15-s6": ("C15", ["C15"], "internal/completion/insert.go: with an empty prefix the completed line shares the line's array; cycling overwrites the text after the cursor", "empty word, text after the cursor, a candidate not longer than that text, 2+ presses"),
+ "C16-s5": ("C16", ["C16"], "emacs.go: backward word kills with a numeric argument >= 2 store the words in the wrong order", "M-2 C-w / M-3 M-DEL with at least two words before the cursor"),
+ "C16-s6": ("C16", ["C16"], "internal/display/engine.go: matching-bracket highlight regions outlive the redisplay and are cut by the next kill", "set blink-matching-paren on, cursor on a bracket with a partner, a kill through Selection.Cut"),
+ "C17-s5": ("C17", ["C17"], "internal/display/engine.go: a stale bracket matcher region is taken by the Vi delete operator (same family as C16-s6, found independently)", "set blink-matching-paren on, cursor on a bracket with a partner at the last redisplay, d<motion>"),
+ "C17-s6": ("C17", ["C17"], "vim.go viDeleteTo: a 'failed motion' guard returns when the pending selection is empty before the inclusive adjustment", "a motion / text object that ends where it starts: diw on a one-letter word, de on the last character, di\" around one character"),
+ "C18-s5": ("C18", ["C18"], "internal/core/keys.go: the three key-popping helpers merged; Pop no longer records the key for the macro recorder", "a Vi macro with an operator + i/a + a surround character"),
+ "C18-s6": ("C18", ["C18"], "internal/macro/engine.go: a macro consisting only of the key that ends it is saved; a line accepted between recording and replay replaces the macro", "a macro recorded in one call and replayed in a later call on the same Shell"),
+ "C06-s5": ("C06", ["C06"], "history.go acceptLineWith: NonIsearchStop runs before History.InsertMatch (a defer removed); CheckCommand runs before the match is inserted", "vi command mode, ?<whole entry>RET or ?RET"),
+ "C06-s6": ("C06", ["C06"], "internal/editor/buffers.go Write/WriteTo lose their copy: a lettered register aliases the line (same idea as C06-s2, found independently by a third agent)", "\"aY on a non-last line of a multi-line buffer, then \"AY"),
+ # fourth round
+ "C04-s7": ("C04", ["C04"], "internal/completion/display.go Display only sends ESC[0J when a list had been printed before: rows of a taller earlier frame stay", "a frame at least two rows shorter than the one before, no completion menu shown before"),
+ "C04-s8": ("C04", ["C04"], "internal/display/engine.go computeCoordinates queries the cursor position once per prompt instead of at every redisplay", "the width of the prompt's last line changing within one call: show-mode-in-prompt with mode strings of different widths, or a prompt function whose output changes"),
+ "C05-s7": ("C05", ["C05"], "internal/core/keys_unix.go GetCursorPos: keys sharing a read with the cursor report are queued without convertInput", "a character cut by the previous read whose rest arrives with the report, or a Meta character with convert-meta on arriving with the report"),
+ "C05-s8": ("C05", ["C05"], "internal/core/keys.go: flushFed removed from PopKey/PeekKey and the 'keys already waiting' test moved above the flush in WaitAvailableKeys: keys read along with a feeding command overtake the fed keys", "macro replay, a macro-bound sequence, do-lowercase-version or prefix-meta followed by more keys in the same read"),
+ "C08-s7": ("C08", ["C08"], "internal/history/sources.go Write: the same-as-newest test hoisted out of the per-source loop and asked of the active source only (third independent find of this family)", "two sources whose newest entries differ, a line equal to one of them"),
+ "C08-s8": ("C08", ["C08"], "history.go acceptLineWith: hold / infer swapped at the call made when AcceptMultiline is set", "AcceptMultiline set and accept-and-hold / operate-and-get-next / accept-and-infer-next-history"),
+ "C10-s7": ("C10", ["C10"], "internal/history/file.go: torn tail detected at load time by JSON decoding and cached; Write opens O_WRONLY", "a crash exactly before the final newline of an append (a complete object without newline), or two sources on one file"),
+ "C10-s8": ("C10", ["C10"], "internal/history/file.go Write builds the record with strconv.AppendQuote instead of json.Marshal", "a line with a C0 control other than \\b\\t\\n\\f\\r, DEL, a non-printable astral character or invalid UTF-8"),
+ "C20-s7": ("C20", ["C20"], "internal/core/keys.go extractCursorPos compacts the read buffer in place; the report handed over aliases it (third independent find of this family)", "an asynchronous redisplay with the next key arriving behind the report in the same read"),
+ "C20-s8": ("C20", ["C20"], "internal/core/keys_unix.go readInputFiltered decrements cursorReq when it hands a report over, GetCursorPos decrements too", "the second asynchronous redisplay in the lifetime of the Shell"),
  # own mutants
  "m-C01b": ("C01", ["C01"], "internal/core/keys.go ReadKey: a read error only aborts the command when bytes were read with it (`err != nil && len(buf) > 0`): the loop spins on a failing terminal", 'an argument-reading command, then EOF/EIO at its argument read'),
  "m-C02": ("C02", ["C02"], "emacs.go selfInsert: a non-ASCII character is dropped when the buffer length is 15 mod 16", 'a non-ASCII character typed at buffer length 15, 31, ...'),
